@@ -3,6 +3,7 @@ inherit "/script";
 #include "/mcfg.h"
 
 int n_hb;
+int query_n_hb() { return n_hb; }
 
 void create() { seteuid(getuid()); }
 
